@@ -60,6 +60,9 @@ def _build(cmd, race=False, tags="verif"):
     os.makedirs(outdir, exist_ok=True)
     key = hashlib.sha1(REPO.encode()).hexdigest()[:8]
     out = os.path.join(outdir, "%s-%s%s" % (cmd, key, "-race" if race else ""))
+    if REPO != "/repo":
+        import atexit
+        atexit.register(lambda: [os.remove(f) for f in (out, os.path.join(HERE, "work", "go-%s.mod" % key), os.path.join(HERE, "work", "go-%s.sum" % key)) if os.path.exists(f)])
     modfile = os.path.join(hdir, "go.mod")
     args = ["go", "build", "-tags", tags, "-o", out]
     if REPO != "/repo":
